@@ -274,7 +274,7 @@ theorem mem_herbrand (P : FOProgram) (a : GAtom) :
 
 /-- the numbering is injective on the Herbrand base (and separates it from everything else) -/
 theorem atomId_inj (P : FOProgram) {a b : GAtom} (ha : a ∈ herbrand P) (h : atomId P a = atomId P b) : a = b := by
-  unfold atomId at h
+  unfold atomId idIn at h
   have hlt : (herbrand P).idxOf a < (herbrand P).length := List.idxOf_lt_length_iff.2 ha
   have hlt' : (herbrand P).idxOf b < (herbrand P).length := h ▸ hlt
   have e1 := List.getElem_idxOf hlt
@@ -283,7 +283,17 @@ theorem atomId_inj (P : FOProgram) {a b : GAtom} (ha : a ∈ herbrand P) (h : at
   simp only [h]
 
 theorem atomId_lt (P : FOProgram) (a : GAtom) : atomId P a < (ground P).natoms ↔ a ∈ herbrand P := by
-  unfold atomId ground
+  unfold atomId idIn ground
   exact List.idxOf_lt_length_iff
+
+/-! ### the fields of `ground` -/
+
+theorem ground_rules (P : FOProgram) : (ground P).rules = (groundSym P).1.map (SRule.toRule (atomId P)) := rfl
+theorem ground_groups (P : FOProgram) : (ground P).groups = (groundSym P).2 := rfl
+theorem ground_natoms (P : FOProgram) : (ground P).natoms = (herbrand P).length := rfl
+theorem ground_nchoices (P : FOProgram) : (ground P).nchoices = totalChoices P.consts P.stmts := rfl
+theorem queryIds_eq (P : FOProgram) : queryIds P = (queryInstances P).map (atomId P) := rfl
+theorem evidenceIds_eq (P : FOProgram) :
+    evidenceIds P = P.evidence.map (fun av => (atomId P (av.1.subst []), av.2)) := rfl
 
 end ProbLogProofs.SemFOGround
